@@ -156,6 +156,8 @@ def rule_until(ctx):
         region = ch.choose("--until", ["default", -5, -2, -1, 0, 1, 7])
         # an empty file name (a quoted unset shell variable) is an unusable argument, not a program error
         names = ch.choose("file names", [("cid", ["data"]), ("", ["data"]), ("cid", [""]), ("cid", ["data", ""])])
+        # round 11: the application object may have served an earlier command line; "no limit" means no limit then too
+        earlier = ch.choose("limit left by an earlier set_options", ["none", 3])
 
         @stub
         def parser_error(interp, args, kwargs):
@@ -195,6 +197,8 @@ def rule_until(ctx):
         except Exception:
             interp.module_globals.setdefault("cutplace.applications", {})["__version__"] = "0"
         app = interp.instantiate(ClassRef(model.cls(APP)), [], {})
+        if earlier != "none":
+            app.attrs["validate_until"] = RInt(earlier)
         try:
             interp.call_function(model.func(APP + ".set_options"), [app, ["cutplace", "cid", "data"]], {}, None)
             value = app.attrs.get("validate_until")
@@ -205,9 +209,9 @@ def rule_until(ctx):
         expected = None if number == -1 else (number if number >= 0 else "raise SystemExit")
         if names[0] == "" or "" in names[1]:
             expected = "raise SystemExit"
-        return ("--until %s, CID %r, data files %r" % (region, names[0], names[1]), actual, expected)
+        return ("--until %s, CID %r, data files %r, earlier limit %s" % (region, names[0], names[1], earlier), actual, expected)
 
-    decide(ctx, "O18.4", "--until mapping and file names", APP + ".set_options", cell, min_cells=28)
+    decide(ctx, "O18.4", "--until mapping and file names", APP + ".set_options", cell, min_cells=56)
 
 
 def rule_oserror(ctx):
